@@ -32,8 +32,8 @@ class REnum:
     def __init__(self, enum, variant, p=None): self.enum = enum; self.variant = variant; self.p = p if p is not None else []
     def __repr__(self): return '%s::%s%r' % (self.enum, self.variant, self.p)
 class RVec:
-    __slots__ = ('l',)
-    def __init__(self, l=None): self.l = l if l is not None else []
+    __slots__ = ('l', 'untyped_collect')
+    def __init__(self, l=None): self.l = l if l is not None else []; self.untyped_collect = False
     def __repr__(self): return 'RVec%r' % (self.l,)
 class RTuple:
     __slots__ = ('l',)
@@ -186,7 +186,7 @@ class Machine:
         self.release = release           # release profile: integer overflow wraps instead of panicking
         self.domains = {}                # z3 const name -> finite list of python strings (for fork-on-value)
         self.char_ops_forbidden = False  # layer-B harnesses: a character-level look at a symbolic name breaks data independence
-        self.char_splits = 0; self.probe_domains = {}; self.probe_splits = 0; self.di_broken = 0
+        self.char_splits = 0; self.probe_domains = {}; self.probe_splits = 0; self.di_broken = 0; self.approx = 0
         self.fuel0 = fuel; self.fuel = fuel
         self.effects = []                # recorded environment effects (C12)
         self.env_model = {}              # environment stubs (C12)
@@ -486,9 +486,19 @@ class Machine:
         for p, a in zip(params, args):
             if not self.bind(p['pat'], a, env): raise PanicEx('refutable parameter pattern')
         try:
-            return self.block(node['body'], env)
+            rv = self.block(node['body'], env)
         except ReturnEx as r:
-            return r.v
+            rv = r.v
+        if isinstance(rv, RVec) and getattr(rv, 'untyped_collect', False) and node.get('ret') in ('String', 'std::string::String'): rv = self.as_string(rv)
+        return rv
+    def as_string(self, v):
+        """collect() without a turbofish whose target type turns out to be String (pieces are chars / strings)"""
+        out = ''
+        for x in v.l:
+            if isinstance(x, RStr): out = s_concat(out, x.val)
+            elif isinstance(x, str): out = s_concat(out, x)
+            else: raise Unsupported('collect() into String of %r' % (type(x),))
+        return RStr(out)
     def call_value(self, f, args):
         if isinstance(f, RClosure):
             env = Env(f.env)
@@ -645,6 +655,8 @@ class Machine:
             return RStr(self.display(recv))
         key = type(recv).__name__ if not isinstance(recv, (RStruct, REnum)) else ty
         if isinstance(recv, bool): key = 'bool'
+        elif z3.is_bool(recv) and name in ('then_some', 'then'):
+            recv = self.branch(recv); key = 'bool'
         f = BUILTIN_METHODS.get((key, name))
         if f is None: f = BUILTIN_METHODS.get(('*', name))
         if f is None: raise Unsupported('method %s on %s at %s' % (name, ty or type(recv).__name__, e.get('sp')))
@@ -865,6 +877,10 @@ class Machine:
     def e_cast(self, e, env):
         v = self.expr(e['e'], env)
         if isinstance(v, int) and e['ty'] in INT_WIDTH: return v & ((1 << INT_WIDTH[e['ty']]) - 1)
+        if z3.is_bv(v) and e['ty'] in INT_WIDTH:
+            w = INT_WIDTH[e['ty']]
+            if w == v.size(): return v
+            return z3.Extract(w - 1, 0, v) if w < v.size() else z3.ZeroExt(w - v.size(), v)
         raise Unsupported('cast to ' + e['ty'])
     def e_structlit(self, e, env):
         name = e['path'][-1]
@@ -957,6 +973,7 @@ class Machine:
         if isinstance(v, str): return v
         if isinstance(v, (Frags,)): return v
         if isinstance(v, RStruct) and 'disp' in v.f: return v.f['disp']
+        if isinstance(v, RVec) and getattr(v, 'untyped_collect', False): return self.as_string(v).val
         if z3.is_bv(v): return Frags([z3.IntToStr(z3.BV2Int(v))])       # decimal rendering of an unsigned machine integer
         if z3.is_int(v): return Frags([z3.IntToStr(v)])
         ty = self.type_of(v)
@@ -979,6 +996,12 @@ def _string_from_utf8(m, b):
         raise Unsupported('String::from_utf8 of %r' % (type(b),))
     if m.branch(b.utf8): return Ok(RStr(b.val))
     return Err(RStruct('FromUtf8Error', {'disp': 'invalid utf-8 sequence in %s' % (b.tag,), 'tag': b.tag}))
+def _lossy(m, b):
+    if isinstance(b, RBytes) and b.utf8 is not True:
+        if m.branch(b.utf8): return RStr(b.val)
+        m.approx += 1          # the replaced content is not modelled exactly (the conformance gate skips documents that reach this)
+        return RStr(s_concat(b.val, '\ufffd'))
+    return RStr(b.val)
 def _exit(m, code): raise ExitEx(code)
 def _read_to_string(m, path):
     f = m.env_model.get('read_to_string')
@@ -1011,7 +1034,7 @@ BUILTIN_FNS = {
     ('VecDeque', 'with_capacity'): lambda m, n: RVec(), ('Vec', 'from'): lambda m, v: RVec(list(m.iterate(v))),
     ('Vec', 'new'): lambda m: RVec(), ('String', 'new'): lambda m: RStr(''), ('HashMap', 'new'): lambda m: RMap(), ('HashSet', 'new'): lambda m: RSet(),
     ('String', 'from'): lambda m, s: RStr(s.val if isinstance(s, RStr) else s), ('String', 'from_utf8'): _string_from_utf8,
-    ('String', 'from_utf8_lossy'): lambda m, b: RStr(b.val),          # invalid sequences become U+FFFD: never an error (the replaced content is not modelled)
+    ('String', 'from_utf8_lossy'): lambda m, b: _lossy(m, b),          # invalid sequences become U+FFFD: never an error
     ('str', 'from_utf8'): _string_from_utf8,
     ('mem', 'discriminant'): lambda m, v: RDisc(v.enum, v.variant), ('VecDeque', 'new'): lambda m: RVec(),
     ('process', 'exit'): _exit, ('fs', 'read_to_string'): _read_to_string, ('File', 'create'): _file_create,
@@ -1106,7 +1129,9 @@ def _collect(m, it, turbofish=None):
         out = ''
         for x in items: out = s_concat(out, x.val if isinstance(x, RStr) else x)
         return RStr(out)
-    return RVec(list(items))
+    rv = RVec(list(items))
+    if not turbofish: rv.untyped_collect = True          # the target type is inferred by rustc; resolved where the value is used
+    return rv
 def _sfind(s_, c):
     i = s_.find(c)
     return Some(len(s_[:i].encode())) if i >= 0 else NONE()
@@ -1245,6 +1270,13 @@ def _sort_by(m, v, f):
 def _once_get_or_init(m, c, f):
     if c.f['v'].variant == 'None': c.f['v'] = Some(m.call_value(f, []))
     return c.f['v'].p[0]
+def _trim_matches(v, p, start, end):
+    if p == '': return v
+    if start:
+        while v.startswith(p): v = v[len(p):]
+    if end:
+        while v.endswith(p): v = v[:len(v) - len(p)]
+    return v
 def _dedup(m, v):
     out = []
     for x in v.l:
@@ -1427,6 +1459,8 @@ BUILTIN_METHODS = {
     ('RStr', 'eq_ignore_ascii_case'): lambda m, s_, t: m.cs(s_).lower() == m.cs(t).lower() if (m.cs(s_).isascii() and m.cs(t).isascii()) else (_ for _ in ()).throw(Unsupported('eq_ignore_ascii_case on non-ASCII')),
     ('RStr', 'capacity'): lambda m, s_: 0, ('RStr', 'reserve'): lambda m, s_, n: UNIT, ('RStr', 'insert_str'): lambda m, s_, i, t: (setattr(s_, 'val', m.cs(s_).encode()[:i].decode() + m.cs(t) + m.cs(s_).encode()[i:].decode()), UNIT)[1],
     ('RStr', 'is_ascii'): lambda m, s_: m.cs(s_).isascii(),
+    ('RStr', 'trim_start_matches'): lambda m, s_, p: RStr(_trim_matches(m.cs(s_), _pat(m, p), True, False)), ('RStr', 'trim_end_matches'): lambda m, s_, p: RStr(_trim_matches(m.cs(s_), _pat(m, p), False, True)),
+    ('RStr', 'trim_matches'): lambda m, s_, p: RStr(_trim_matches(m.cs(s_), _pat(m, p), True, True)),
     ('OnceCell', 'get_or_init'): lambda m, c, f: _once_get_or_init(m, c, f), ('OnceCell', 'get'): lambda m, c: c.f['v'],
     ('OnceCell', 'set'): lambda m, c, v: (Err(v) if c.f['v'].variant == 'Some' else (c.f.__setitem__('v', Some(v)), Ok(UNIT))[1]),
     ('OnceCell', 'take'): lambda m, c: (c.f['v'], c.f.__setitem__('v', NONE()))[0],
@@ -1468,7 +1502,7 @@ BUILTIN_METHODS = {
     ('Option', 'cloned'): lambda m, o: deep(o),
     ('int', 'saturating_sub'): _sat_sub, ('int', 'to_string'): lambda m, i: RStr(str(i)), ('int', 'clone'): lambda m, i: i,
     ('int', 'min'): lambda m, a, b: min(a, b), ('int', 'max'): lambda m, a, b: max(a, b),
-    ('bool', 'clone'): lambda m, b: b,
+    ('bool', 'clone'): lambda m, b: b, ('bool', 'then_some'): lambda m, b, v: Some(v) if b else NONE(), ('bool', 'then'): lambda m, b, f: Some(m.call_value(f, [])) if b else NONE(),
     ('RStr', 'push_str'): _push_str, ('RStr', 'push'): _push_str,
     ('RStr', 'is_empty'): _is_empty_str, ('RStr', 'len'): lambda m, s_: len(m.cs(s_).encode()),
     ('RStr', 'chars'): lambda m, s_: RIter(list(m.cs(s_))), ('RStr', 'bytes'): lambda m, s_: RIter(list(m.cs(s_).encode())),
